@@ -25,11 +25,15 @@ def cases(tier, seed):
             # classification sub-workload
             tn = rng.choice([None, 1e-3, 0.1])
             tol = 2.220446049250313e-19 if tn is None else float(tn)
-            cls = str(rng.choice(["zero", "half", "double", "big"]))
-            diff = {"zero": 0.0, "half": 0.5 * tol, "double": 2.0 * tol, "big": 1.0}[cls]
+            cls = str(rng.choice(["zero", "half", "double", "big", "equal"]))
+            if cls == "equal":
+                tn, tol = 0.125, 0.125  # exactly representable: |y1-y2| == tol_noise is NOT 'more than'
+            diff = {"zero": 0.0, "half": 0.5 * tol, "double": 2.0 * tol, "big": 1.0, "equal": tol}[cls]
             opts = {} if tn is None else {"tol_noise": float(tn)}
             spec = gen.make_spec(rng, D=D, geom=str(rng.choice(["lin", "log", "unb"])), x0mode=str(rng.choice(["in", "none"])),
-                                 land=str(rng.choice(["quad", "sphere", "l1"])), where="in", mode="det", options=opts, max_fun_evals=45)
+                                 land=("const" if cls == "equal" else str(rng.choice(["quad", "sphere", "l1"]))), where="in", mode="det", options=opts, max_fun_evals=45)
+            if cls == "equal":
+                spec["target"]["value"] = 1.0
             out.append({"spec": spec, "jitter": {"diff": diff, "cls": cls, "tol": tol}})
             continue
         mode = str(rng.choice(["auto", "declared", "declared+size", "he"], p=[0.25, 0.2, 0.15, 0.4]))
@@ -81,7 +85,7 @@ def summarize(records, tier, seed):
             nt.add((s["noise"]["mode"], s["options"].get("noise_final_samples"), s["D"], s["geom"], int(np.floor(np.log10(max(s["noise"]["sigma"], 1e-12))))))
     cnt = C.count_sum(records, "C05.")
     extra = {"events_checked": cnt, "status": C.status_hist(records),
-             "classification_cases": {c: sum(1 for r in records if (r.get("jitter") or {}).get("cls") == c) for c in ("zero", "half", "double", "big")},
+             "classification_cases": {c: sum(1 for r in records if (r.get("jitter") or {}).get("cls") == c) for c in ("zero", "half", "double", "big", "equal")},
              "classified_stochastic": sum(1 for r in records if r.get("jitter") and str(r.get("target_type", "")).startswith("stochastic")),
              "runs_with_final_sampling": sum(1 for r in records if (r.get("n_final") or 0) >= 1),
              "aborts_by_other_defects": C.other_property_aborts(records, "C05")}
